@@ -95,7 +95,9 @@ ASSUMPTIONS = ['the model has three target kinds (wire / register / memory) and 
                'source are the conflict condition, the width guard, the WHOLE of _current_select (and_with_possible_none, '
                'between_otherwise_and_current incl. its last-otherwise index and slices, the select conjuncts and recorded '
                'polarities; C07_rule_current_select: on every stack it returns the (select, pred_set) of the model), the '
-               'default selection and the select steps of both _finalize folds; only the statement ORDER of the state '
+               'default selection and the select steps of both _finalize folds; the generator then assembles _push_condition, '
+               '_build, the per-target _finalize and the whole elaboration (gen_elab) from these rules and C07_rule_elab proves '
+               'elab_w = gen_elab, so the property theorems hold of the regenerated elaborator; only the statement ORDER of the state '
                'machine (_push/_pop_condition, _build, _check_and_add_pred_set, __enter__/__exit__, the loop skeletons) is '
                'shape-checked fail-closed (any other edit there reports the tie broken until the model is re-validated)']
 
@@ -1914,7 +1916,18 @@ def run(ctx):
     pyrtl.reset_working_block()
     prng = ctx.sub_rng('poison')
     n = 0
-    for case in gen_cases(ctx):
+    def guarded_cases():
+        # a fault inside a generator must not lose the cases already built nor the Coq phase
+        it = gen_cases(ctx)
+        while True:
+            try:
+                yield next(it)
+            except StopIteration:
+                return
+            except Exception:  # noqa
+                ctx.model_mismatch('harness error in the case generator: %s' % traceback.format_exc()[-600:], {})
+                return
+    for case in guarded_cases():
         if prng.random() < 0.08:
             run_poison(ctx, prng.randrange(len(POISON)))
         try:
